@@ -137,6 +137,12 @@ pub fn replay_mlstring(path: &str, out: &mut impl Write) -> (u64, u64) {
                 if let Some(x) = c02(text, &tin, &o, &tout, cfg.format_multiline_strings) {
                     viols.push(x);
                 }
+                // C03: formatting the result again changes nothing
+                if let Ok(o2) = fmt(&fmts[ci], &o) {
+                    if o2 != o {
+                        viols.push(Viol { prop: "C03", clause: "idempotent", detail: format!("{:?} -> {:?} -> {:?}", text, o, o2) });
+                    }
+                }
                 for x in &viols {
                     bad += 1;
                     let _ = writeln!(out, "{}", json!({"t": "viol", "prop": x.prop, "clause": x.clause, "detail": x.detail, "text": text, "cfg": cfg, "literal": v["text"]}));
